@@ -119,6 +119,13 @@ func (v verificationMethodValidator) verifyThumbprint(method *did.VerificationMe
 		// JWK() returns nil without error if the verification method has no publicKeyJwk
 		return errors.New("verificationMethod does not contain a JWK")
 	}
+	// Only public keys may be published: a private (or symmetric) key would be disclosed to the whole network, for good.
+	switch keyAsJWK.(type) {
+	case jwk.ECDSAPublicKey, jwk.RSAPublicKey, jwk.OKPPublicKey:
+		// OK
+	default:
+		return errors.New("publicKeyJwk must contain a public key")
+	}
 	// calculating the thumbprint of an EC key panics if a coordinate doesn't fit the curve
 	if err = jwx.ValidateECCoordinates(keyAsJWK); err != nil {
 		return err
